@@ -40,6 +40,23 @@ def parseAct? (s : String) : Option Action :=
   | [k, g] => if k = "F" then g.toNat?.map .activate else none
   | _ => none
 
+/-- the action list of a rule. `W.<k>` (k ≤ 2: `ScheduleRule`, `CompleteWorkflow`, `SetWorkflowData`) is a workflow
+bookkeeping action: `execute_action` hands it to the `WorkflowEngine` (a task list / workflow table that `execute` never
+reads), it cannot fail and touches neither the facts nor the agenda nor the loop control — the model sees the rule
+without it (a rule whose actions are all of this kind is, to the model, a rule with an empty action list: it fires and
+keeps the cycle loop alive like any other firing). -/
+def parseActs? (s : String) : Option (List Action) :=
+  if s = "-" then some []
+  else (s.splitOn "/").foldr (fun a acc => do
+    let rest ← acc
+    match a.splitOn "." with
+    | ["W", k] => do
+      let k ← k.toNat?
+      if k ≤ 2 then pure rest else none
+    | _ => do
+      let x ← parseAct? a
+      pure (x :: rest)) (some [])
+
 def parseRule? (s : String) : Option Rule :=
   match s.splitOn ":" with
   | [n, sal, fl, ag, actg, eff, exp, c, acts] => do
@@ -51,7 +68,7 @@ def parseRule? (s : String) : Option Rule :=
     let eff ← optDate? eff
     let exp ← optDate? exp
     let c ← parseCond? c
-    let acts ← if acts = "-" then some [] else (acts.splitOn "/").mapM parseAct?
+    let acts ← parseActs? acts
     pure { name := n, salience := sal, enabled := fl % 2 = 1, noLoop := (fl / 2) % 2 = 1, lock := (fl / 4) % 2 = 1,
            agenda := ag, actGroup := actg, effective := eff, expires := exp, cond := c, actions := acts }
   | _ => none
